@@ -640,9 +640,9 @@ class MwApi:
                 from_title = redirect.get("from")
                 to_title = redirect.get("to")
                 if from_title and to_title and from_title in contributors_by_title:
-                    # Move the InspectAuthors object to the new title
+                    # The target's contributors are the contributors of the redirect as well:
+                    # both titles share one InspectAuthors object (the caller looks up the title it asked for)
                     contributors_by_title[to_title] = contributors_by_title[from_title]
-                    del contributors_by_title[from_title]
 
             # Process pages
             pages = newdata.get("pages", {})
